@@ -131,7 +131,11 @@ def run(R):
         else:
             R.ok("C10.bytes", "next|read_until", "byte-level accumulating read", c.loc())
     if not reads:
-        R.violation("C10.bytes", "next|no-read", "FollowFileIterator::next has no recognised accumulating read call", [f.loc()])
+        other = sorted(set(short(c.name).split("::")[-1] for c in f.calls if re.search(r"^std::io::(BufRead|Read)::", short(c.name))))
+        R.violation("C10.bytes", "next|unmodelled-read-api", "FollowFileIterator::next reads through %s, which the content model does not cover "
+                                                             "(only read_until / read_line are modelled): delivery of every completed line exactly "
+                                                             "once cannot be established for this implementation" % (other or "no std::io read call"),
+                    [f.loc()])
     _check_seek(R)
     _check_feed(R)
     R.assume("BufReader::read_until appends what it got and returns Ok(n) at EOF (std); the writer/reader interleavings themselves are not enumerated")
@@ -141,7 +145,8 @@ def _interpret(R, f):
     loops = f.loops()
     reads = [c for c in f.calls if READ.search(short(c.name))]
     if not reads:
-        raise Violation("next|no-read", "no accumulating read call found", 0)
+        raise Violation("next|unmodelled-read-api", "no read_until / read_line call: the buffer handling of this implementation (e.g. fill_buf/consume "
+                        "slices) is outside the content model, so conservation of the appended bytes cannot be established", 0)
     lp = PR.loop_of(f, reads[0].bb)
     if lp is None:
         raise Violation("next|no-loop", "the read is not inside a retry loop", reads[0].bb)
